@@ -18,6 +18,7 @@ from __future__ import annotations
 import asyncio
 import itertools
 import json
+import math
 from datetime import timedelta
 from fractions import Fraction
 from types import SimpleNamespace
@@ -54,8 +55,55 @@ def cq(v) -> str:
     return f"(Qmake {cZ(f.numerator)} {f.denominator}%positive)"
 
 
-def watts(power) -> list:
-    return jq(power.as_watts())
+def jf(v):
+    """like jq, but a non-finite float becomes its repr string ("nan", "inf", "-inf")"""
+    if isinstance(v, float) and not math.isfinite(v):
+        return repr(v)
+    return jq(v)
+
+
+def watts(power):
+    return jf(power.as_watts())
+
+
+# float path (oracle only): PV lower bounds that no rational can express.  On the unchanged code a NaN or -inf
+# lower bound acts as "no bound" (max() skips it, the inverter gets its equal share) and -0.0 acts as 0: all
+# Result fields and set_power arguments stay finite.  (+inf is not generated: it is not a lower bound of anything.)
+SPECIAL_BOUNDS = ["nan", "-inf", "-0.0"]
+
+
+def pnum(v, num):
+    """case number -> implementation number; strings are the special float bounds"""
+    return float(v) if isinstance(v, str) else num(fr(v))
+
+
+def judge_float(obs, req, out, comps_of_call, tol=1e-6) -> list[str]:
+    """C15 on a float run: NaN/inf-ness first, then the clauses within a tolerance"""
+    if obs["kind"] not in ("Success", "PartialFailure"):
+        return []
+    calls = obs["calls"]
+    bad = [k for k in ("succ_power", "failed_power", "excess") if isinstance(obs.get(k), str)]
+    badc = [[c, p] for c, p in calls if isinstance(p, str)]
+    if bad or badc:
+        return [f"nan: non-finite values in the Result / set_power arguments: " +
+                ", ".join(f"{k}={obs[k]}" for k in bad) + (f" set_power{badc}" if badc else "")]
+    v = []
+    eps = tol * (1 + abs(float(req)))
+    f = lambda x: float(fr(x))
+    failed_calls = [c for k, c in enumerate(calls) if FAILED[out[k] if k < len(out) else 0]]
+    succ_p, exc, fail_p = f(obs["succ_power"]), f(obs["excess"]), f(obs.get("failed_power", 0))
+    if abs(succ_p + fail_p + exc - float(req)) > eps:
+        v.append(f"sum: succeeded {succ_p} + failed {fail_p} + excess {exc} != requested {float(req)}")
+    succ, failed = set(obs["succ"]), set(obs.get("failed", []))
+    addressed = set().union(*[set(comps_of_call(c)) for c, _ in calls]) if calls else set()
+    want_failed = set().union(*[set(comps_of_call(c)) for c, _ in failed_calls]) if failed_calls else set()
+    if succ & failed or succ | failed != addressed or failed != want_failed:
+        v.append(f"sets: succeeded {sorted(succ)} / failed {sorted(failed)}; addressed {sorted(addressed)}, behind failed calls {sorted(want_failed)}")
+    if abs(fail_p - sum(f(p) for _, p in failed_calls)) > eps:
+        v.append(f"failed: failed_power {fail_p} != sum of the set-points of the failed calls {sum(f(p) for _, p in failed_calls)}")
+    if abs(sum(f(p) for _, p in calls) + exc - float(req)) > eps:
+        v.append(f"alloc: set-points {sum(f(p) for _, p in calls)} + excess {exc} != requested {float(req)}")
+    return v
 
 
 # ----------------------------------------------------------------------------- fakes
@@ -206,11 +254,12 @@ def run_pv(case) -> dict:
     pv._api_power_request_timeout = timedelta(seconds=TIMEOUT_S)
     pv._pv_inverter_ids = {i for i, _ in case["working"]}
     pv._component_pool_status_tracker = FakeTracker([i for i, _ in case["working"]]) if case["tracker"] else None
-    pv._component_data_caches = {i: FakeCache(None if b is None else X(fr(b))) for i, b in case["working"]}
+    num = (lambda q: float(q)) if case.get("float") else X
+    pv._component_data_caches = {i: FakeCache(None if b is None else pnum(b, num)) for i, b in case["working"]}
     pv._target_power = I.Power.zero()      # what __init__ does; not read any more after the F14 fix
-    request = I.Request(power=I.Power.from_watts(X(fr(case["req"]))), component_ids=set(case["ids"]))
+    request = I.Request(power=I.Power.from_watts(num(fr(case["req"]))), component_ids=set(case["ids"]))
     (st, res), elapsed = _run(pv.distribute_power(request))
-    calls = [[c, jq(p)] for c, p in api.calls]
+    calls = [[c, jf(p)] for c, p in api.calls]
     msgs = pv._results_sender.msgs
     if st == "raise":
         return {"kind": "raise:" + res, "calls": calls, "n_results": len(msgs)}
@@ -549,11 +598,21 @@ class PVStream(Stream):
         for _ in range(nrand):
             n = rng.choice([1, 2, 2, 3, 3, 4, 5, 6, 8])
             yield {**gen_pv_base(rng, n), "out": gen_out(rng, n)}
+        # float path: one inverter streams a NaN / -inf / -0.0 / 0.0 lower bound (oracle only)
+        for _ in range(160 if tier == "quick" else 2000):
+            n = rng.choice([1, 2, 2, 3, 4])
+            ids = rng.sample(range(1, 30), n)
+            working = [[i, [-rng.choice([100, 150, 300, 500, 1000]), 1]] for i in ids]
+            working[rng.randrange(n)][1] = rng.choice(SPECIAL_BOUNDS + ["nan", "nan", [0, 1]])
+            yield {"float": True, "req": [-rng.choice([100, 250, 600, 1000, 2500, 7]), 1] if rng.random() < 0.9 else [rng.choice([0, 50]), 1],
+                   "ids": sorted(ids), "tracker": True, "working": working, "out": gen_out(rng, n)}
 
     def run_impl(self, case):
         return run_pv(case)
 
     def to_coq(self, case, obs):
+        if case.get("float"):
+            return None          # NaN / inf are outside Q: judged by the oracle only
         r = c_result(obs)
         if r is None:
             return f"({c_pv_in(case)}, NoResult, [(0, {cq(0)})])"      # unknown kind of answer: reported as disagreement
@@ -564,6 +623,14 @@ class PVStream(Stream):
 
     def oracle(self, case, obs):
         req = fr(case["req"])
+        if case.get("float"):
+            out = [{"what": w, "finding": None} for w in judge_float(obs, req, case["out"], lambda i: [i])]
+            if obs["kind"].startswith("raise") or (obs["kind"] == "none" and case["working"]):
+                out.append({"what": f"result: {obs['kind']} for a request to PV inverters with bounds {case['working']}", "finding": None})
+            usable = sorted(i for i, b in case["working"] if b is not None)
+            if obs["kind"] in ("Success", "PartialFailure") and sorted(i for i, _ in obs["calls"]) != usable:
+                out.append({"what": f"alloc: calls went to {sorted(i for i, _ in obs['calls'])} but the usable inverters are {usable}", "finding": None})
+            return out
         out = [{"what": w, "finding": None} for w in judge(obs, req, case["out"], lambda i: [i])]
         if obs.get("n_results", 0) > 1:
             out.append({"what": f"result: {obs['n_results']} results sent for one request", "finding": None})
@@ -594,6 +661,9 @@ class PVStream(Stream):
     def labels(self, case, obs):
         n = len(obs.get("calls", []))
         lb = [f"calls={n}", f"kind={obs['kind']}"]
+        if case.get("float"):
+            return lb + ["float_path"] + [f"special_lower_bound={b if isinstance(b, str) else '0.0'}" for _, b in case["working"]
+                                          if isinstance(b, str) or fr(b) == 0]
         if not case["tracker"]:
             lb.append("no_pv_inverters_in_graph")
         elif n == 0:
@@ -1054,9 +1124,11 @@ class WiredApi(FakeApiById):
 def _wired_msgs(case, cm):
     import math
     from datetime import datetime, timezone
-    soc = {b: X(fr(s)) for b, s, _ in case["bats"]}
-    cap = {b: X(fr(c)) for b, _, c in case["bats"]}
-    bound = {i: X(fr(v)) for i, v in case["inv_bounds"]}
+    num = (lambda q: float(q)) if case.get("float") else X
+    soc = {b: num(fr(s)) for b, s, _ in case["bats"]}
+    cap = {b: num(fr(c)) for b, _, c in case["bats"]}
+    bound = {i: pnum(v, num) for i, v in case["inv_bounds"]}
+    X0 = num(Fraction(0))
     nan3 = (math.nan,) * 3
 
     def bat(b, change=None):
@@ -1072,8 +1144,8 @@ def _wired_msgs(case, cm):
         return cm.InverterData(
             component_id=i, timestamp=datetime.now(tz=timezone.utc), active_power=0.0, active_power_per_phase=nan3,
             reactive_power=0.0, reactive_power_per_phase=nan3, current_per_phase=nan3, voltage_per_phase=nan3,
-            active_power_inclusion_lower_bound=-bound[i], active_power_exclusion_lower_bound=X(0),
-            active_power_inclusion_upper_bound=bound[i], active_power_exclusion_upper_bound=X(0), frequency=50.0,
+            active_power_inclusion_lower_bound=-bound[i], active_power_exclusion_lower_bound=X0,
+            active_power_inclusion_upper_bound=bound[i], active_power_exclusion_upper_bound=X0, frequency=50.0,
             component_state=cm.InverterComponentState.ERROR if change == "inv_error" else cm.InverterComponentState.IDLE, errors=[])
     return bat, inv
 
@@ -1336,7 +1408,10 @@ def run_wired_pv(case) -> dict:
     I = _imports()
     cm, Broadcast, Graph = _wired_imports()
     invs = [i for i, _ in case["invs"]]
-    _, inv_msg = _wired_msgs({"bats": [], "inv_bounds": [[i, jq(-fr(b))] for i, b in case["invs"]]}, cm)
+    neg = {"nan": "nan", "-inf": "inf", "-0.0": "0.0"}      # _wired_msgs takes the magnitude: lower bound = -magnitude
+    _, inv_msg = _wired_msgs({"float": case.get("float"), "bats": [],
+                              "inv_bounds": [[i, neg[b] if isinstance(b, str) else jq(-fr(b))] for i, b in case["invs"]]}, cm)
+    num = (lambda q: float(q)) if case.get("float") else X
     tq = case.get("timeout_q", TIMEOUT_Q)
 
     async def main():
@@ -1381,7 +1456,7 @@ def run_wired_pv(case) -> dict:
                     bad.add(victim)
                     await api.inv_ch[victim].new_sender().send(inv_msg(victim, "inv_error"))
                 api.event = (at, change_health)
-            request = I.Request(power=I.Power.from_watts(X(fr(h["req"]))), component_ids=frozenset(h["ids"]))
+            request = I.Request(power=I.Power.from_watts(num(fr(h["req"]))), component_ids=frozenset(h["ids"]))
             try:
                 await manager.distribute_power(request)
                 st = "ok"
@@ -1399,7 +1474,7 @@ def run_wired_pv(case) -> dict:
             first = obs_of_result(mine[0], I, request) if mine else {"kind": "none" if st == "ok" else st}
             retained.append((mine[0] if mine else None, request))
             sc = {e[0]: eff_outcome(e, tq) for e in h["script"]}
-            out.append({"first": first, "calls": [[c, jq(p)] for c, p in api.calls], "outs": [sc.get(c, 0) for c, _ in api.calls],
+            out.append({"first": first, "calls": [[c, jf(p)] for c, p in api.calls], "outs": [sc.get(c, 0) for c, _ in api.calls],
                         "usable": usable, "n_results": len(mine), "stray_results": len(got) - len(mine)})
         await asyncio.sleep(1.0)
         for o, (res, request) in zip(out, retained):
@@ -1443,6 +1518,16 @@ class WiredPVStream(Stream):
                     h["recover"] = [x["health"][0] for x in case["history"] if "health" in x]
                 case["history"].append(h)
             yield case
+        # float path: a working, data-streaming inverter whose inclusion lower bound is NaN / -inf / -0.0 (oracle only)
+        for _ in range(40 if tier == "quick" else 600):
+            n = rng.choice([1, 2, 3])
+            ids = rng.sample(range(40, 60), n)
+            invs = [[i, b] for i, b in zip(ids, rng.sample([-100, -150, -300, -500, -1000], n))]
+            invs[rng.randrange(n)][1] = rng.choice(SPECIAL_BOUNDS + ["nan"])
+            yield {"float": True, "timeout_q": 20, "invs": invs,
+                   "history": [{"req": [-rng.choice([100, 250, 600, 1000, 2500]), 1], "ids": sorted(ids),
+                                "script": [[e[0], e[1], max(e[2], 1) if e[1] != 4 else e[2], e[3]] for e in gen_script(rng, sorted(ids), "random")],
+                                "profile": "random"} for _ in range(rng.choice([1, 2]))]}
 
     def run_impl(self, case):
         return run_wired_pv(case)
@@ -1450,9 +1535,12 @@ class WiredPVStream(Stream):
     def _subs(self, case, obs):
         b = {i: v for i, v in case["invs"]}
         for h, o in zip(case["history"], obs["reqs"]):
-            yield {"req": h["req"], "ids": h["ids"], "tracker": True, "working": [[i, jq(b[i])] for i in o["usable"]], "out": o["outs"]}, o
+            yield {"req": h["req"], "ids": h["ids"], "tracker": True, "float": case.get("float", False),
+                   "working": [[i, b[i] if isinstance(b[i], str) else jq(b[i])] for i in o["usable"]], "out": o["outs"]}, o
 
     def to_coq(self, case, obs):
+        if case.get("float"):
+            return None
         return "[" + "; ".join(self._single.to_coq(sub, o) for sub, o in self._subs(case, obs)) + "]"
 
     def show_term(self, case, obs):
@@ -1482,6 +1570,8 @@ class WiredPVStream(Stream):
     def labels(self, case, obs):
         tq = case.get("timeout_q", TIMEOUT_Q)
         lb = [f"requests={len(case['history'])}", f"timeout_quarter_seconds={tq}"]
+        if case.get("float"):
+            lb += ["float_path"] + [f"special_lower_bound={b}" for _, b in case["invs"] if isinstance(b, str)]
         for h, o in zip(case["history"], obs["reqs"]):
             lb.append("kind=" + o["kind"])
             if tq % 4 and any(e[1] == 0 and (tq // 4) * 4 < e[2] < tq for e in h["script"]):
